@@ -15,7 +15,7 @@ import z3
 from .ctx import CTX, PathEnd, OutOfSubset
 from .sym import (SInt, SBool, SStr, SRef, SBV, SReal, PyRaise, mk_int, mk_bool, mk_str, _zint, _zbool, zstr,
                   is_sym, ite)
-from .values import (Opaque, AbstractSeq, EnumMember, FuncVal, BoundMethod, PropertyVal, HostFn, HostModule, ClassVal, VObj,
+from .values import (Opaque, AbstractSeq, OneShotIter, EnumMember, FuncVal, BoundMethod, PropertyVal, HostFn, HostModule, ClassVal, VObj,
                      RangeVal, IterVal, VDict, VSet, VList, UNROLL_LIMIT)
 
 
@@ -772,6 +772,8 @@ class Interp:
     # ------------------------------------------------------------------ iteration
     def iterate(self, v):
         """materialise an iterable of statically known length -> python list of values, or None"""
+        if isinstance(v, OneShotIter):
+            return self.iterate(v.take())
         if isinstance(v, tuple):
             return list(v)
         if isinstance(v, VList):
@@ -780,6 +782,15 @@ class Interp:
             return list(v.items)
         if isinstance(v, str):
             return list(v)
+        if isinstance(v, SStr) and CTX.mode == "sym":
+            # a symbolic string whose length is forced to one small constant on this path is iterated
+            # character by character
+            n = z3.Length(v.t)
+            if CTX.solver.check() == z3.sat:
+                n0 = CTX.solver.model().eval(n, model_completion=True).as_long()
+                if 0 <= n0 <= 8 and CTX.solver.check(n != n0) == z3.unsat:
+                    return [mk_str(z3.SubString(v.t, j, 1)) for j in range(n0)]
+            return None
         if isinstance(v, VDict):
             return list(v.d.keys())
         if isinstance(v, VSet):
@@ -1157,6 +1168,8 @@ class Interp:
             raise OutOfSubset("unbounded loop in concrete mode")
         if s.orelse:
             raise OutOfSubset("for/else with symbolic bounds")
+        if isinstance(it, OneShotIter):
+            it = it.take()
         if isinstance(it, RangeVal) and it.step == 1:
             self._sym_range_loop(s, scope, it, spec, key)
         elif isinstance(it, VList):
